@@ -50,11 +50,11 @@ TRUSTED = ["sympy (only as the carrier of the expressions formula.py builds; tra
 
 
 def bounds(tier):
-    return {"L": list(range(0, 4 if tier == "quick" else 9)), "tolerance": "exact identities (no float constants other than integers)"}
+    return {"L": list(range(0, 4 if tier == "quick" else 8)), "tolerance": "exact identities (no float constants other than integers)"}
 
 
 def jobs(tier, seed):
-    Ls = range(0, 4 if tier == "quick" else 9)
+    Ls = range(0, 4 if tier == "quick" else 8)
     out = [("bw",), ("cmmom",), ("gs",)]
     for L in Ls:
         out += [("poly", L), ("bprime", L), ("gamma", L), ("bwr", L), ("bwr2", L), ("dom", L), ("barrier", L)]
